@@ -8,6 +8,7 @@ import (
 	"strings"
 	"sync"
 	"testing"
+	"time"
 
 	"verif/sched"
 
@@ -20,6 +21,7 @@ type prog struct {
 	body        string // body of main (and optional extra declarations before "func main")
 	decls       string
 	terminating bool
+	template    string // if not empty, the scenario runs this template source instead of a program
 }
 
 var programs = []prog{
@@ -44,6 +46,16 @@ var programs = []prog{
 	{name: "native-poll-callback-loop", body: "host.Poll(func() bool {\n for {\n }\n return true\n})"},
 	{name: "native-poll-in-goroutine", body: "done := make(chan bool)\nch := make(chan int)\ngo func() {\n host.Poll(func() bool {\n  ch <- 1\n  return true\n })\n done <- true\n}()\nhost.Poll(func() bool {\n return <-done\n})"},
 	{name: "buffered-producer-consumer", body: "c := make(chan int, 2)\ngo func() {\n for i := 0; ; i++ {\n  c <- i\n }\n}()\nfor {\n <-c\n}"},
+	// loops made only of jumps
+	{name: "continue-loop", body: "for {\n continue\n}"},
+	{name: "goto-cycle", body: "A:\n goto B\nB:\n goto A"},
+	{name: "goto-cycle3", body: "x := 0\nA:\n goto B\nC:\n goto A\nB:\n if x == 0 {\n  goto C\n }"},
+	{name: "cond-continue-loop", body: "x := 1\nfor x > 0 {\n if x > 0 {\n  continue\n }\n x++\n}"},
+	{name: "range-continue-loop", body: "c := make(chan int)\ngo func() {\n for {\n  select {\n  case c <- 1:\n  default:\n   continue\n  }\n }\n}()\nfor range c {\n continue\n}"},
+	{name: "switch-break-loop", body: "for {\n switch {\n default:\n  break\n }\n}"},
+	{name: "tmpl-for-continue", template: "{% for %}{% continue %}{% end %}"},
+	{name: "tmpl-for-show", template: "{% for %}{{ 1 }}{% end %}"},
+	{name: "tmpl-macro-recursion", template: "{% macro M %}{{ M() }}{% end %}{{ M() }}"},
 	// terminating programs
 	{name: "t-print", body: "println(1)", terminating: true},
 	{name: "t-loop10", body: "s := 0\nfor i := 0; i < 10; i++ {\n s += i\n}\nprintln(s)", terminating: true},
@@ -81,13 +93,36 @@ type state struct {
 	cancelled     bool
 }
 
-func scenario(p prog, horizon, bound int) *sched.Scenario {
+// deadlineCtx is a cancellable context that also reports a deadline one hour
+// away (as context.WithTimeout does) without arming any timer of its own.
+type deadlineCtx struct {
+	context.Context
+	deadline time.Time
+}
+
+func (c deadlineCtx) Deadline() (time.Time, bool) { return c.deadline, true }
+
+type discard struct{}
+
+func (discard) Write(p []byte) (int, error) { return len(p), nil }
+
+// scenario: ctxKind is "cancel" (context.WithCancel) or "deadline" (a
+// cancellable context with a far deadline, cancelled explicitly).
+func scenario(p prog, horizon, bound int, ctxKind string) *sched.Scenario {
 	var once sync.Once
 	var sp *scriggo.Program
+	var tp *scriggo.Template
 	var buildErr error
 	src := source(p)
+	if p.template != "" {
+		src = p.template
+	}
+	name := p.name
+	if ctxKind != "cancel" {
+		name += "+" + ctxKind
+	}
 	return &sched.Scenario{
-		Name:       p.name,
+		Name:       name,
 		Bound:      bound,
 		MaxPoints:  horizon + 400,
 		DoneOracle: true,
@@ -100,6 +135,10 @@ func scenario(p prog, horizon, bound int) *sched.Scenario {
 		Visible: func(ev *scriggo.VerifEvent) bool { return true },
 		Prepare: func() {
 			once.Do(func() {
+				if p.template != "" {
+					tp, buildErr = scriggo.BuildTemplate(scriggo.Files{"index.html": []byte(src)}, "index.html", nil)
+					return
+				}
 				sp, buildErr = scriggo.Build(scriggo.Files{"main.go": []byte(src)}, &scriggo.BuildOptions{AllowGoStmt: true, Packages: hostPkg})
 			})
 		},
@@ -107,6 +146,9 @@ func scenario(p prog, horizon, bound int) *sched.Scenario {
 			st := &state{status: "not run"}
 			x.User = st
 			ctx, cancel := context.WithCancel(context.Background())
+			if ctxKind == "deadline" {
+				ctx = deadlineCtx{ctx, time.Now().Add(time.Hour)}
+			}
 			mainBody := func() {
 				if buildErr != nil {
 					st.status = "build error: " + buildErr.Error()
@@ -120,11 +162,17 @@ func scenario(p prog, horizon, bound int) *sched.Scenario {
 						st.mu.Unlock()
 					}
 				}()
-				err := sp.Run(&scriggo.RunOptions{Context: ctx, Print: func(v any) {
+				opts := &scriggo.RunOptions{Context: ctx, Print: func(v any) {
 					st.mu.Lock()
 					fmt.Fprint(&st.out, v)
 					st.mu.Unlock()
-				}})
+				}}
+				var err error
+				if tp != nil {
+					err = tp.Run(discard{}, nil, opts)
+				} else {
+					err = sp.Run(opts)
+				}
 				st.mu.Lock()
 				st.runErr = err
 				st.status = "returned"
@@ -234,7 +282,7 @@ func TestVerif(t *testing.T) {
 	sched.RunCheck(t, &sched.CheckSpec{
 		ID:    "C11",
 		Level: "model_checking",
-		Rule:  "for each of 21 non-terminating/blocking programs (loops, recursion, blocked channel operations and selects, goroutines, native callbacks, native helpers that poll a callback) and 7 terminating ones, run on the real VM under the controlled scheduler with EVERY instruction a scheduling point: the cancel event is fired at every global step k = 0..horizon and once everything is blocked; the context watcher goroutine (the step between ctx.Done firing and the done flag being stored) is delayed by every j <= deviation_bound further steps; goroutine interleavings and ready-vs-done choices of channel operations are enumerated within the same deviation bound. Oracles: Run returns exactly context.Canceled (or the program's own outcome if it finished first), every thread stops (no deadlock, no leaked goroutine in the bubble), and no thread starts an instruction after being resumed with the done flag visible",
+		Rule:  "for each of 30 non-terminating/blocking programs and templates (loops, loops made only of jumps — continue, goto cycles, break in switch —, recursion, blocked channel operations and selects, goroutines, native callbacks, native helpers that poll a callback, template for/continue/macro recursion) and 7 terminating ones, with a context.WithCancel context and (10 of them) with a cancellable context that also reports a far deadline, run on the real VM under the controlled scheduler with EVERY instruction a scheduling point: the cancel event is fired at every global step k = 0..horizon and once everything is blocked; the context watcher goroutine (the step between ctx.Done firing and the done flag being stored) is delayed by every j <= deviation_bound further steps; goroutine interleavings and ready-vs-done choices of channel operations are enumerated within the same deviation bound. Oracles: Run returns exactly context.Canceled (or the program's own outcome if it finished first), every thread stops (no deadlock, no leaked goroutine in the bubble), and no thread starts an instruction after being resumed with the done flag visible",
 		Assumptions: []string{
 			"'bounded delay' is measured in VM instructions under the controlled scheduler, never in wall-clock time",
 			"native host functions that block outside the VM are not modelled (the only native used is a callback trampoline)",
@@ -247,7 +295,14 @@ func TestVerif(t *testing.T) {
 			}
 			var scs []*sched.Scenario
 			for _, p := range programs {
-				scs = append(scs, scenario(p, h, b))
+				scs = append(scs, scenario(p, h, b, "cancel"))
+			}
+			// the same with a context that also has a (far) deadline, cancelled explicitly
+			for _, p := range programs {
+				switch p.name {
+				case "tight-loop", "loop-call", "send-no-partner", "select-blocked-loop", "go-loop-and-loop", "native-callback-loop", "native-poll-callback-recv", "tmpl-for-show", "t-loop10", "t-go-join":
+					scs = append(scs, scenario(p, h, b, "deadline"))
+				}
 			}
 			return scs
 		},
